@@ -168,6 +168,51 @@ def label_of(py, gr, chain, mod, name) -> str:
     return SLUG_ORDER
 
 
+def local_namespace(case, mod, sim, paths, pkgs, local_imports) -> dict:
+    """Names bound by the import statements of a function body (same bookkeeping as a module body)."""
+    return G._sim_module(case, {"path": mod["path"], "pkg": mod["pkg"], "body": list(local_imports)}, sim, paths, pkgs)["ns"]
+
+
+def python_lookup_fn(name, local_ns, mod_ns_final):
+    """Python's rule inside a method body: function locals, module globals (final: the method runs after the import),
+    builtins. Class bodies are not searched."""
+    if name in local_ns:
+        return ("module", local_ns[name])
+    if name in mod_ns_final:
+        return ("module", mod_ns_final[name])
+    if name in BUILTINS:
+        return ("builtin",)
+    return None
+
+
+def griffe_model_lookup_fn(name, local_ns, chain, mod_ns_final, pkg_scopes=()):
+    """Model of Function.resolve -> Object.resolve for the `__init__` of chain[-1]."""
+    if name in local_ns:
+        return ("module", local_ns[name])
+    if name == chain[-1]["name"]:
+        return ("parent-name", len(chain) - 1)
+    return griffe_model_lookup(name, chain, mod_ns_final, pkg_scopes)
+
+
+def label_fn(py, gr, chain, mod, name) -> str:
+    if _lookup_path(py, chain, mod, name) == _lookup_path(gr, chain, mod, name):
+        return "agree"
+    if gr is not None and gr[0] in ("class", "parent-name"):
+        return SLUG_OUTER  # any class body is an outer scope Python does not search from a method
+    if gr is not None and gr[0] in ("package", "package-child"):
+        return SLUG_PKG
+    return SLUG_ORDER
+
+
+def _justified_fn(case, mod, local_imports, root) -> list:
+    fake = {"path": mod["path"], "pkg": mod["pkg"], "body": list(local_imports)}
+    return _justified(case, fake, None, [], root) + _justified(case, {**mod, "pkg": False}, None, [], root)
+
+
+def site_id(st_, site) -> str:
+    return site.get("id") or st_["name"]
+
+
 def _justified(case, mod, final, chain, root) -> list:
     """Paths (with the $TOP placeholder) that a definition or an import statement in a scope Python searches from this
     site justifies for the identifier `root` (order-insensitive: any binding of the name in those scopes)."""
@@ -214,9 +259,21 @@ def site_info(case) -> dict:
                 if "sites" in st_:
                     # module-level view at the position of the outermost statement
                     point = G._sim_module(case, {**mod, "body": mod["body"][:idx]}, sim, paths, pkgs)["ns"]
+                    local_ns = None
                     for site in st_["sites"]:
                         if site["what"] == "strcall":
                             out.setdefault(st_["name"], {})[site["what"]] = {"label": "agree", "justified": []}
+                            continue
+                        if site["what"].startswith("init"):
+                            if local_ns is None:
+                                local_ns = local_namespace(case, mod, sim, paths, pkgs, st_.get("local_imports", ()))
+                            root = site["expr"].split(".")[0]
+                            py = python_lookup_fn(root, local_ns, final["ns"])
+                            gr = griffe_model_lookup_fn(root, local_ns, chain, final["ns"], scopes)
+                            out.setdefault(site["id"], {})[site["what"]] = {
+                                "label": label_fn(py, gr, chain, mod, root),
+                                "justified": _justified_fn(case, mod, st_.get("local_imports", ()), root),
+                            }
                             continue
                         root = site["expr"].split(".")[0]
                         lazy = site["what"] == "str"
@@ -565,11 +622,100 @@ def cases(draw, avoid: frozenset = frozenset(), on_excluded=None, max_mods: int 
                     new.append((pos, stmt))
             return new
 
+        order_paths = [m["path"] for m in case["mods"]]
+        init_sources = G.allowed_sources(order_paths, i)
+
+        def init_for(scope_body, chain):
+            """An `__init__` whose body imports locally and stores what the imported names are bound to:
+            `self.r: NAME = NAME` (the value records the binding for the oracle; the annotation is the same expression)."""
+            if not init_sources or not draw(st.booleans()):
+                return None
+            imports = []
+            for _ in range(draw(st.integers(1, 3))):
+                src = draw(st.sampled_from(init_sources))
+                form = draw(st.sampled_from(("from", "from", "fromsub", "import")))
+                # (documented precondition, as at module level) nothing imported in a package's __init__.py carries the
+                # name of one of its sub-modules, except the sub-module itself
+                own_children = {G.base_name(c) for c in G.children(case, mod["path"])}
+                names_ = [x for x in G.mentionable(case, sim, src)
+                          if not sim[src]["ns"][x].get("helper") and not is_site_name(x) and x not in own_children]
+                asname = draw(st.sampled_from(MEMBER_NAMES)) if draw(st.booleans()) else None
+                if form == "from" and names_:
+                    imports.append({"t": "from", "mod": src, "level": G._pick_level(draw, mod["path"], mod["pkg"], src),
+                                    "names": [[draw(st.sampled_from(names_)), asname]]})
+                elif form == "fromsub" and src != "":
+                    pkg_ = G.parent_path(src)
+                    imports.append({"t": "from", "mod": pkg_, "level": G._pick_level(draw, mod["path"], mod["pkg"], pkg_),
+                                    "names": [[G.base_name(src), asname]]})
+                else:
+                    imports.append({"t": "import", "mod": src, "as": asname or draw(st.sampled_from(MEMBER_NAMES))})
+            local_ns = local_namespace(case, mod, sim, paths, pkgs, imports)
+            names = set(local_ns) | set(final["ns"]) | set(BUILTINS)
+            for c in chain:
+                names |= set(_class_attrs(c))
+            names -= tolerated
+            names -= {"__all__", "self", "$TOP"}
+            cands = []
+            for n in sorted(x for x in names if not is_site_name(x)):
+                py = python_lookup_fn(n, local_ns, final["ns"])
+                if py is None:
+                    continue
+                gr = griffe_model_lookup_fn(n, local_ns, chain, final["ns"], scopes)
+                lab = label_fn(py, gr, chain, mod, n)
+                if lab in avoid:
+                    if on_excluded is not None:
+                        on_excluded(lab)
+                    continue
+                cands.append((n, py, lab))
+            local_c = [c for c in cands if c[0] in local_ns]
+            sites, lines = [], []
+            for _ in range(draw(st.integers(1, 3))):
+                pool = local_c if local_c and draw(st.integers(0, 3)) > 0 else cands
+                if not pool:
+                    break
+                n, py, lab = draw(st.sampled_from(pool))
+                feats = ["init-local-import" if n in local_ns else "init-global"]
+                if n in local_ns and (n in final["ns"] or any(last_binding(c["body"], n) for c in chain)):
+                    feats.append("shadowed")
+                text, kind, node, info = n, None, None, {}
+                if py[0] == "builtin":
+                    feats.append("builtin")
+                else:
+                    info = py[1]
+                    kind, node = info.get("kind", "val"), info.get("node")
+                    stmt_ = info.get("stmt")
+                    if n in local_ns and stmt_ is not None:
+                        if stmt_["t"] == "from" and stmt_["level"] > 0:
+                            feats.append(f"relative-import-level{stmt_['level']}")
+                        if stmt_["t"] == "import" or any(a_ == n for _, a_ in stmt_.get("names", ()) if stmt_["t"] == "from"):
+                            feats.append("import-as")
+                    if kind in ("module", "class"):
+                        text, kind, segs, via_module = _extend_chain(draw, case, sim, mod["path"], text, kind, info, node, None)
+                        if segs:
+                            feats.append(f"chain{segs}")
+                        if via_module:
+                            feats.append("via-module-alias")
+                counter[0] += 1
+                rid = f"r{i}_{counter[0]}"
+                lines.append(f"self.{rid}: {text} = {text}")
+                for w in ("init-ann", "init-val"):
+                    sites.append({"what": w, "id": rid, "expr": text, "label": lab, "features": feats})
+            if not sites:
+                return None
+            body_lines = [G.render_stmt(imp, "$TOP", mod, "", "")[0] for imp in imports] + lines
+            return {"t": "def", "name": "__init__", "serial": 900, "params": "self", "local_imports": imports,
+                    "body_lines": body_lines, "sites": sites}
+
         # ---- phase 2: sites, computed against the bodies as they are now, inserted afterwards
         plan = []  # (body list, [(pos, stmt)])
 
         def visit(scope_body, chain, top_index):
-            plan.append((scope_body, sites_for(scope_body, chain, top_index)))
+            new_sites = sites_for(scope_body, chain, top_index)
+            if chain:
+                init = init_for(scope_body, chain)
+                if init is not None:
+                    new_sites.append((draw(st.integers(0, len(scope_body))), init))
+            plan.append((scope_body, new_sites))
             for j, st_ in enumerate(scope_body):
                 if st_["t"] == "class" and (chain or st_["name"].startswith("S")):
                     # only classes that stay reachable under their name (not re-bound later in the same body)
